@@ -26,6 +26,7 @@ From SV Require Import Bytes Lexer Tables ArgCheck ArgSpec Machine Printer GenTa
 Import ListNotations.
 Local Open Scope nat_scope.
 From SV Require Import ArgCheckFacts PositionFacts TotalFacts RegisterFacts CompleteFacts CompleteTree CompleteExamples.
+From SV Require Import LexRules.
 
 (* the argument tokens drive the machine exactly as the arguments drive the table interpreter; brackets, loaded extensions, comments and result are untouched *)
 Theorem C03_run_args :
@@ -203,4 +204,8 @@ Example C03_vacation_example :
                         (bs "subject", VStr (bs """x\""y"""))] [] []]
   | _, _ => Reject EUnknownToken 0 0
   end.
+Proof. vm_compute. reflexivity. Qed.
+
+(* Parser.lrules of the working tree are the regular expressions the scanners of sieve/Lexer.v were translated from *)
+Example C03_lexer_rules : gen_lrules = expected_lrules.
 Proof. vm_compute. reflexivity. Qed.
